@@ -45,6 +45,7 @@ type Profile struct {
 	PolicyHeavy   bool         // plans / projects carry chain policies and selected-provider lists
 	TightCU       bool         // project total CU limits below subscription CU
 	Prologue      func(s *Sim) // directed opening of the history, run after BuildWorld
+	StaticSpec    bool         // the world also has a spec with static providers (SPS): pairing = all non-frozen stakers
 }
 
 func defaultWeights() map[string]int {
@@ -145,7 +146,13 @@ func (s *Sim) BuildWorld() {
 			_ = ts.Keepers.BankKeeper.SetBalance(ts.Ctx, testkeeper.GetModuleAddress(pool), sdk.NewCoins(s.coin(0)))
 		}
 	}
-	for _, sp := range []spectypes.Spec{specA(), specSimple("SPB", 1), specSimple("SPC", 2)} {
+	worldSpecs := []spectypes.Spec{specA(), specSimple("SPB", 1), specSimple("SPC", 2)}
+	if p.StaticSpec {
+		sps := specSimple("SPS", 1)
+		sps.ProvidersTypes = spectypes.Spec_static
+		worldSpecs = append(worldSpecs, sps)
+	}
+	for _, sp := range worldSpecs {
 		ts.AddSpec(sp.Index, sp)
 		s.Specs = append(s.Specs, sp.Index)
 	}
@@ -182,6 +189,9 @@ func (s *Sim) BuildWorld() {
 		}
 		if i%3 == 0 {
 			s.doStake(pr, "SPC", 1000+int64(s.R.Intn(50))*1000, false)
+		}
+		if p.StaticSpec && i%2 == 0 {
+			s.doStake(pr, "SPS", 1000+int64(s.R.Intn(50))*1000, false)
 		}
 	}
 	for i := 0; i < max(p.Consumers, 2); i++ {
